@@ -32,7 +32,8 @@ package handler
 //@       ret0.GatewayIPAddr == old(resp.GatewayIPAddr) && ret0.Options == old(resp.Options))
 //@   ensures[C11:echoed-options-untouched] ret0 != nil ==> ((has(ret0.Options, 82) <==> old(has(resp.Options, 82))) && ret0.Options[82] == old(resp.Options[82]) && \
 //@       (has(ret0.Options, 61) <==> old(has(resp.Options, 61))) && ret0.Options[61] == old(resp.Options[61]))
-//@   ensures[C11:reply-type-untouched] ret0 != nil ==> mtof(ret0.Options) == old(mtof(resp.Options))
+// a handler may turn an ACK into a NAK (C11: "ACK (or NAK) for a REQUEST"); otherwise the reply type stays
+//@   ensures[C11:reply-type-untouched] ret0 != nil ==> (mtof(ret0.Options) == old(mtof(resp.Options)) || (old(mtof(resp.Options)) == 5 && mtof(ret0.Options) == 6))
 
 //@ ghost var hlog_req6 Array[int]Iface
 //@ ghost var hlog_in6 Array[int]Iface
